@@ -368,6 +368,15 @@ def register(props):
                       "hypothesis on the schema), C09_behaviour_plugin_all_paths (every data schema of a rebuilt plugin schema), "
                       "C09_plugin (whole plugin schemas with signal data schemas), "
                       "C09_not_describable_refuted (the hypothesis is necessary: D28, D29, D69 witnesses). "
+                      "C09_describe_nesting_bound / C09_hello_nesting_bound / C09_hello_within_transport (Proofs/C09Nest.v, "
+                      "Schema/DescribeNest.v): for EVERY schema the CBOR nesting of its description is at most the structural budget "
+                      "tnest s (5 per scope, 5 per one-of over objects, 3 per inline object, 1 per list / map, leaf 4 with units, 3 enum, "
+                      "2 ref, 1 otherwise), the hello message of EVERY plugin schema nests at most 4 + plugin_nest p levels, so a budget "
+                      "of 28 stays within the 32 levels the decoder of the ATP client accepts - the depth limit of family c09hello's "
+                      "generator; that ReadSchema returns a schema that describes itself and behaves like the plugin's own is TESTED "
+                      "through the real atp.RunATPServer / atp.NewClient on every run (family c09hello), the limit itself "
+                      "(cbor_max_nested = 32, fxamacker/cbor's default) is a recorded library fact checked by the family's ladder "
+                      "(32 carried, 33..37 rejected with an error). "
                       "Over the GENERATED meta-schema table (Generated/MetaDesc.v = DescribeScope/DescribeSchema/DescribeStepOutput"
                       "().SelfSerialize() of the SDK under test, re-dumped on every run, turned into a `schema` by the model's reader in "
                       "Schema/MetaTable.v; regexp/syntax's parse of the table's patterns and encoding/json on its default texts dumped "
